@@ -9,8 +9,95 @@ import YtkProofs.ApplyDiffStr
 import YtkProofs.DiffRel
 import YtkProofs.ApplyDiffB
 import YtkProofs.ValidB
+import YtkProofs.Decisions2
+import YtkModel.Generated.Constants
 
 namespace Ytk.C08
+
+/-! ## decision tables regenerated from the source (extract/tables2.go) -/
+section DecisionTables2
+open Ytk.TableT
+
+/-- (i) The `switch mod.Type` of diff.applySingle as regenerated from diff/apply.go IS the action table
+    of the model (same modification types, same parent walk and final statement for each, nothing for any
+    other type); the statements before the switch, the two parent walks and applyNonListItem /
+    applyListItem are the model's; and `applySingle` equals the function RUN FROM the regenerated case
+    table (`applySingleBy`) and the lookup in the model's table, its Add / Change
+    walk sends a component with index groups through applyListItem and any other through
+    applyNonListItem, its Delete walk descends only through existing containers — on ALL inputs. -/
+theorem apply_table_matches_model :
+    Generated.applyActions = applyRowsM ∧
+    pairs Generated.applyActions = applyTable.map (fun p => (p.1.name, p.2.goName)) ∧
+    Generated.applyActionsDefault = "nothing" ∧
+    Generated.applyPrelude = applyPreludeM ∧ Generated.applyWalks = applyWalksM ∧
+    Generated.applyNonListItemSteps = applyNonListItemStepsM ∧
+    Generated.applyListItemSteps = applyListItemStepsM ∧
+    (∀ kvs m, applySingle kvs m = applySingleBy Generated.applyActions kvs m) ∧
+    (∀ kvs m, applySingle kvs m =
+      match applyTable.lookup m.ty with
+      | some a => a.run kvs m
+      | none => kvs) ∧
+    (∀ kvs c c2 rest v, applyAddSegs kvs (c :: c2 :: rest) v =
+      match parseListComp c with
+      | some (n, idxes) => applyListItemM kvs n idxes (fun sub => applyAddSegs sub (c2 :: rest) v)
+      | none => applyNonListItemM kvs c (fun sub => applyAddSegs sub (c2 :: rest) v)) ∧
+    (∀ kvs last v, applyAddSegs kvs [last] v = add kvs last (.leaf v)) ∧
+    (∀ kvs c c2 rest, applyDelSegs kvs (c :: c2 :: rest) =
+      match child kvs c with
+      | some (.cont sub) => add kvs c (.cont (applyDelSegs sub (c2 :: rest)))
+      | _ => kvs) ∧
+    (∀ kvs last, applyDelSegs kvs [last] = remove kvs last) := by
+  have h1 : Generated.applyActions = applyRowsM := by decide +kernel
+  refine ⟨h1, by decide +kernel, by decide +kernel, by decide +kernel, by decide +kernel,
+    by decide +kernel, by decide +kernel, ?_, applySingle_eq_table, applyAddSegs_step, applyAddSegs_last,
+    applyDelSegs_step, applyDelSegs_last⟩
+  intro kvs m
+  rw [h1]
+  exact applySingle_eq_rows kvs m
+
+/-- the arms of a regenerated parent walk -/
+def walkG (name : String) : List CondArm := (Generated.applyWalks.lookup name).getD []
+
+/-- (ii) The rule of the property on the regenerated tables: the path is split on "."; an Add and a
+    Change do the same thing — walk the parents creating what is missing (a component with index groups
+    through applyListItem, any other through applyNonListItem) and store the modification's value as a
+    leaf under the last component; a Delete walks the parents WITHOUT creating anything — an absent parent
+    or one that is not a container ends it silently (deleting an absent path is a no-op) — and removes
+    the last component; any other type does nothing.  applyNonListItem reuses a container and replaces
+    anything else by a new one; applyListItem reuses a list and replaces anything else by a new one. -/
+theorem apply_table_rule :
+    Generated.applyPrelude = ["v0:=strings.Split(arg1.Path,\".\")", "v1:=arg0"] ∧
+    lookupD Generated.applyActions "" "Add" = "walkAdd;v1.AddValue(v0[len(v0)-1],dom.LeafNode(arg1.Value))" ∧
+    lookupD Generated.applyActions "" "Change" = lookupD Generated.applyActions "" "Add" ∧
+    lookupD Generated.applyActions "" "Delete" = "walkDelete;v1.Remove(v0[len(v0)-1])" ∧
+    Generated.applyActionsDefault = "nothing" ∧
+    armSteps (walkG "walkAdd") "range" = some ["v0[0:len(v0)-1]"] ∧
+    armSteps (walkG "walkAdd") "lead" = some ["v2,v3,v4:=utils.ParseListPathComponent(comp)"] ∧
+    armSteps (walkG "walkAdd") "v4" = some ["v1=applyListItem(v1,v2,v3)"] ∧
+    armSteps (walkG "walkAdd") "otherwise" = some ["v1=applyNonListItem(v1,comp)"] ∧
+    armSteps (walkG "walkDelete") "range" = some ["v0[0:len(v0)-1]"] ∧
+    armSteps (walkG "walkDelete") "lead" = some ["v2:=v1.Child(comp)"] ∧
+    armSteps (walkG "walkDelete") "v2==nil" = some ["return"] ∧
+    armSteps (walkG "walkDelete") "!v2.IsContainer()" = some ["return"] ∧
+    armSteps (walkG "walkDelete") "otherwise" = some ["v1=v2.(dom.ContainerBuilder)"] ∧
+    Generated.applyNonListItemSteps[1]? =
+      some "if v0==nil||!v0.IsContainer(){arg0=arg0.AddContainer(arg1)}else{arg0=v0.(dom.ContainerBuilder)}" ∧
+    Generated.applyListItemSteps[1]? =
+      some "if v1==nil||!v1.IsList(){v0=arg0.AddList(arg1)}else{v0=v1.(dom.ListBuilder)}" ∧
+    Generated.applyListItemSteps[2]? = some "arg0=applyList(v0,arg2)" ∧
+    (∀ r ∈ Generated.applyActions, Generated.const? ("diff." ++ r.const) = some r.key) := by
+  decide +kernel
+
+/-- (iii) the tables are not empty and their keys are distinct: three modification types, two parent
+    walks, every walk named in the action table exists -/
+theorem nonvacuous_apply_tables :
+    Generated.applyActions.length = 3 ∧ (keys Generated.applyActions).Nodup ∧
+    Generated.applyWalks.map (·.1) = ["walkAdd", "walkDelete"] ∧
+    (∀ r ∈ Generated.applyActions, ∃ w ∈ Generated.applyWalks, (w.1 ++ ";").isPrefixOf r.target = true) ∧
+    (∀ w ∈ Generated.applyWalks, (conds w.2).Nodup ∧ w.2.getLast?.map (·.cond) = some "otherwise") := by
+  decide +kernel
+
+end DecisionTables2
 
 /-- Applying an empty modification list changes nothing. -/
 theorem apply_nil (d : AMap Node) : apply d [] = d := rfl
